@@ -20,6 +20,18 @@ def draw(rng, focus, maxlen):
     one structural step."""
     from . import oracle_c04
     edit_focus = 'punctuation_delete' in focus
+    if 'punctuation_verylow' in focus and rng.random() < 0.2:
+        # a punctuation step, a correction of the tokens by hand (a token that
+        # was taken for punctuation gets its word and tag), the step again
+        step = rng.choice(['punctuation_verylow', 'punctuation_verylow',
+                           'punctuation_root', 'punctuation_symetrify'])
+        seq = [[step, {}], ['_edit_word', {'k': rng.randrange(1000)}],
+               [step, {}]]
+        if rng.random() < 0.5:
+            seq.insert(0, ['root_attach', {}])
+        if rng.random() < 0.3:
+            seq.insert(len(seq) - 1, ['root_attach', {}])
+        return seq
     for _ in range(40):
         seq = oracle_c04.draw_sequence(rng, maxlen)
         if edit_focus or rng.random() < 0.33:
@@ -28,7 +40,13 @@ def draw(rng, focus, maxlen):
                   if not (k > 0 and seq[k - 1][0] in ('boyd_split',
                                                       'collapse_unary_chains'))]
             if ok:
-                seq.insert(rng.choice(ok), ['punctuation_delete', {}])
+                at = rng.choice(ok)
+                seq.insert(at, ['punctuation_delete', {}])
+                if edit_focus and at >= 2 and rng.random() < 0.5:
+                    # the caller removed a token by hand (trees.delete_terminal)
+                    # earlier on, at least one other step lies in between
+                    seq.insert(rng.randrange(0, at - 1),
+                               ['_delete_token', {'k': rng.randrange(1000)}])
         if any(step in focus for step, _ in seq[1:]):
             return seq
     return None
@@ -73,6 +91,29 @@ def run_case(ctx, cur, case, rng):
                         # something looks at the tree between two steps: it
                         # is written, numbered, analysed, navigated
                         look(ctx.R, looks.get(k, looks.get(str(k))), live)
+                    if step == '_edit_word':
+                        T = ctx.R.trees
+                        toks = [t for t in sorted(
+                            T.unordered_terminals(live),
+                            key=lambda t: t.data['num'])
+                            if t.data['word'] in gen.PUNCT]
+                        if toks:
+                            t = toks[params['k'] % len(toks)]
+                            t.data['word'] = 'Wort'
+                            t.data['label'] = 'NN'
+                            ctx.stratum('pipeline: token corrected by hand '
+                                        'between two punctuation steps')
+                        continue
+                    if step == '_delete_token':
+                        T = ctx.R.trees
+                        toks = sorted(T.unordered_terminals(live),
+                                      key=lambda t: t.data['num'])
+                        if len(toks) >= 3:
+                            T.delete_terminal(live,
+                                              toks[params['k'] % len(toks)])
+                            ctx.stratum('pipeline: token deleted by hand '
+                                        'before')
+                        continue
                     live = getattr(tr, step)(live, **params)
                     if live is None:
                         break
